@@ -156,6 +156,9 @@ def cycle(rep, geo, key, det, work, tracer=None, expected_stream=None):
         with core.quiet():
             g2.write(p2)
         if open(p1, "rb").read() != open(p2, "rb").read():
+            l1, l2 = open(p1).read().splitlines(), open(p2).read().splitlines()
+            k = next((i for i, (x, y) in enumerate(zip(l1, l2)) if x != y), min(len(l1), len(l2)))
+            det["first_difference"] = {"line": k + 1, "first_write": l1[k] if k < len(l1) else None, "second_write": l2[k] if k < len(l2) else None}
             rep.violation(key + ":second-write", "P2_second_write_identical", det)
             return
         if expected_stream is not None:
@@ -228,13 +231,29 @@ def run(tier):
             nx, ny, nz = rng.randint(1, 5), rng.randint(1, 4), rng.randint(1, 5)
             unit = rng.choice(["", "FEET "])
             omax = 9e6 if unit == "" else 2.5e6        # coordinates up to the 10-column limit, in the file's unit
+            dzs = [round(rng.uniform(0.5, 300.0), 2) for _ in range(nz)]
+            z0 = round(rng.uniform(-500, 3000), 2)
+            if rng.random() < 0.3:
+                # a layer centred exactly on elevation zero (its thickness an even number of hundredths)
+                # (thicknesses in binary-exact quarters, so that the centre is exactly 0.0 and not -1e-14, which prints as -0.00)
+                k = rng.randrange(nz)
+                dzs = [max(0.5, round(d * 2) / 2.0) for d in dzs]
+                z0 = sum(dzs[:k]) + dzs[k] / 2
             with core.quiet():
                 geo = m.mulgrid().rectangular([round(rng.uniform(0.5, 900.0), 2) for _ in range(nx)],
                                               [round(rng.uniform(0.5, 900.0), 2) for _ in range(ny)],
-                                              [round(rng.uniform(0.5, 300.0), 2) for _ in range(nz)],
-                                              convention=conv, atmos_type=atm, origin=[round(rng.uniform(-1e5, omax), 2), round(rng.uniform(-1e5, omax), 2), round(rng.uniform(-500, 3000), 2)],
+                                              dzs,
+                                              convention=conv, atmos_type=atm, origin=[round(rng.uniform(-1e5, omax), 2), round(rng.uniform(-1e5, omax), 2), z0],
                                               justify='r', case=rng.choice(['l', 'u']), block_order=rng.choice([None, "layer_column", "dmplex"]))
             geo.unit_type = unit
+            if rng.random() < 0.4:
+                # header sizes away from their defaults (whatever the atmosphere type), block order re-assigned through the property
+                geo.atmosphere_volume = rng.choice([1.0e20, 1.0e30, 5.0e10])
+                geo.atmosphere_connection = rng.choice([1.0e-3, 0.5, 1.0e-9])
+            if rng.random() < 0.4:
+                order = rng.choice([None, "layer_column", "dmplex"])
+                geo.block_order = rng.choice(["dmplex", "layer_column"])
+                geo.block_order = order
             for col in geo.columnlist:
                 if rng.random() < 0.4:
                     col.surface = round(geo.layerlist[0].bottom - rng.uniform(0.0, sum(l.thickness for l in geo.layerlist[1:]) * 1.1), 2)
